@@ -2,7 +2,10 @@ module verifharness
 
 go 1.26.0
 
-require github.com/canopy-network/canopy v0.0.0
+require (
+	github.com/canopy-network/canopy v0.0.0
+	google.golang.org/protobuf v1.36.11
+)
 
 require (
 	filippo.io/edwards25519 v1.2.0 // indirect
@@ -59,7 +62,6 @@ require (
 	golang.org/x/sync v0.21.0 // indirect
 	golang.org/x/sys v0.46.0 // indirect
 	golang.org/x/text v0.38.0 // indirect
-	google.golang.org/protobuf v1.36.11 // indirect
 	gopkg.in/natefinch/lumberjack.v2 v2.2.1 // indirect
 )
 
